@@ -10,6 +10,11 @@ package main
 //	query   : <start>/<end>/<style>/<label>~<eq|ne|re|nre>~<hexvalue>;…[/<sum|min|max|avg|count>:<none|by|wo>:<l1+l2|->]
 //	          style b = bare metric name / fn(sel) by (…);  n = {__name__="…"} / fn by (…) (sel)
 //
+// Which datapoints must be ACCEPTED is part of the specification (Spec/Metrics.lean `accepted`): a series without tags
+// and a series with a tag value above 65535 bytes must be rejected at ingest (PropFail e2em/in-class/no-tags resp.
+// e2em/in-class/tag-value-over-64k when such a datapoint is accepted: it could not be served), every other datapoint
+// must be accepted (PropFail e2em/ingest-rejected).
+//
 // Exec runs history and queries in a fresh `corr mworker` process, then forces one more rotation and runs
 // every query again: the two answers must be identical (PropFail e2em/open-vs-rotated-differ).  It prints one
 // canonical segment per query; the Lean Oracle prints the SPECIFICATION's answer (lean/SigModel/Spec/Metrics.lean)
@@ -36,7 +41,7 @@ import (
 
 func init() {
 	register(&Suite{Name: "e2e_metrics", Parallel: 6, Gen: genE2EM, Exec: execE2EM,
-		Rule: "1..5 series (names sharing prefixes; tag sets differing in one value / one key / subsets; keys that are suffixes of other keys; TSID-preimage collision pairs; values with spaces, unicode, punctuation) × float64 values from the adversarial Gorilla pool or small integers × timestamps (irregular steps at dod bucket edges, large gaps, bucket-aligned for every downsample interval used) × ingest histories with out-of-order points and 0..2 block and 0..2 segment rotations × selector and sum/min/max/avg/count by/without queries incl. range boundaries on points; each case in its own engine process, every query answered before and after a final rotation; non-trivial = ≥2 ingested points and ≥1 query"})
+		Rule: "1..5 series (names sharing prefixes; tag sets differing in one value / one key / subsets; keys that are suffixes of other keys; TSID-preimage collision pairs; values with spaces, unicode, punctuation, JSON escapes, 65535/65536+ bytes; series without tags) × float64 values from the adversarial Gorilla pool incl. -0 or small integers × timestamps (irregular steps at dod bucket edges, large gaps, bucket-aligned for every downsample interval used) × ingest histories with out-of-order points and 0..2 block and 0..2 segment rotations × selector and sum/min/max/avg/count by/without queries incl. range boundaries on points, regex on __name__, several matchers on one label; each case in its own engine process, every query answered before and after a final rotation; non-trivial = ≥2 ingested points and ≥1 query"})
 }
 
 type mkv struct{ k, v string }
@@ -59,7 +64,7 @@ var mNamePool = [][]string{
 }
 var mValPool = []string{"h1", "h2", "x", "y", "s1", "s2", "xa", "a", "1", "0", "h1x", "xh1", "ab", "b", "H1", "X", "A"}
 var mOddVals = []string{"sp ace", "ü", "a.b", "a-b", "a=b", "a|b", "a/b", "h1 ", "日本", "(x)", "a+b", "[1]", "x:y",
-	"", "", "", " ", " ", "  ", strings.Repeat("v", 300), strings.Repeat("long-", 700) + "x", strings.Repeat("long-", 700) + "y"}
+	"", "", "", " ", " ", "  ", `q"uote`, `back\slash`, `\"`, strings.Repeat("v", 300), strings.Repeat("long-", 700) + "x", strings.Repeat("long-", 700) + "y"}
 
 func isIdent(s string) bool {
 	ok, _ := regexp.MatchString(`^[a-zA-Z_:][a-zA-Z0-9_:]*$`, s)
@@ -74,9 +79,6 @@ func genMValue(r *rand.Rand, prev uint64) uint64 {
 		if r.Intn(6) == 0 {
 			v = []uint64{0, 0, 1, 0x000fffffffffffff, 0x0010000000000000, 0x7fefffffffffffff, 0xffefffffffffffff,
 				math.Float64bits(1.0), math.Float64bits(1.0) + 1, math.Float64bits(0.1), math.Float64bits(-1.5)}[r.Intn(11)]
-		}
-		if v == 0x8000000000000000 && r.Intn(8) != 0 { // negative zero: recorded finding, kept rare
-			continue
 		}
 		if finiteBits(v) {
 			return v
@@ -242,11 +244,12 @@ func genE2EMCase(r *rand.Rand, tags map[string]int) string {
 			s.labels[0].v = []string{`q"uote`, `back\slash`, `"`}[r.Intn(3)]
 		}
 	case 5:
-		// a tag value longer than 65535 bytes (recorded finding: length field of the tags tree file is 16 bit)
+		// a tag value at / above the longest one the tags tree file can frame (16-bit length field): 65535 bytes must be
+		// stored and served, anything longer must be rejected at ingest
 		s := &sers[r.Intn(len(sers))]
 		if len(s.labels) > 0 {
 			s.labels = append([]mkv(nil), s.labels...)
-			s.labels[r.Intn(len(s.labels))].v = strings.Repeat("w", 65536+r.Intn(3000))
+			s.labels[r.Intn(len(s.labels))].v = strings.Repeat("w", []int{65535, 65536, 65536 + r.Intn(3000)}[r.Intn(3)])
 		}
 	case 6, 7, 8, 9, 10, 11:
 		// identity with EMPTY tag values: sibling series with / without a tag whose value is "", and two series that
@@ -317,7 +320,7 @@ func genE2EMCase(r *rand.Rand, tags map[string]int) string {
 		}
 		delta := int64(1 + r.Intn(12))
 		v := specialVals[r.Intn(len(specialVals))]
-		if !finiteBits(v) || v == 0x8000000000000000 {
+		if !finiteBits(v) {
 			v = math.Float64bits(1.0)
 		}
 		for j := 0; j < np; j++ {
@@ -546,7 +549,7 @@ func genE2EMCase(r *rand.Rand, tags map[string]int) string {
 			for k := r.Intn(3); k > 0; k-- {
 				if m := labelMatcher(); m != "" {
 					l := m[:strings.Index(m, "~")]
-					if usedLabel[l] && r.Intn(12) != 0 { // two matchers on one label: rare
+					if usedLabel[l] && r.Intn(3) != 0 { // two matchers on one label
 						continue
 					}
 					usedLabel[l] = true
@@ -926,6 +929,20 @@ func mOver64k(sers []mser) bool {
 	return false
 }
 
+// Spec/Metrics.lean `accepted`: "" = the datapoints of the series must be accepted, else the class of the (repaired)
+// finding because of which they must be rejected at ingest
+func mRejectClass(s mser) string {
+	if len(s.labels) == 0 {
+		return "no-tags"
+	}
+	for _, kv := range s.labels {
+		if len(kv.v) > 65535 {
+			return "tag-value-over-64k"
+		}
+	}
+	return ""
+}
+
 // input classes of recorded findings that can make the answer depend on rotation (same names as Spec/Metrics.lean `classes`)
 func mGoClasses(sers []mser, escaped bool) []string {
 	var cl []string
@@ -962,6 +979,7 @@ func execE2EM(line string) Result {
 	npts, nro, nbr := 0, 0, 0
 	escaped := false
 	ingested := map[[2]int]bool{}
+	var dpSeries []int // series index of the n-th dp command
 	for i++; i < len(f) && f[i] != "Q"; i++ {
 		t := f[i]
 		switch {
@@ -986,7 +1004,10 @@ func execE2EM(line string) Result {
 				escaped = true
 			}
 			fmt.Fprintf(&in, "dp %s\n", hexs(js))
-			ingested[[2]int{si, pj}] = true
+			dpSeries = append(dpSeries, si)
+			if mRejectClass(sers[si]) == "" { // the specification: datapoints of the other series are rejected
+				ingested[[2]int{si, pj}] = true
+			}
 			npts++
 		default:
 			return Result{Out: "bad-op"}
@@ -1035,14 +1056,33 @@ func execE2EM(line string) Result {
 	}
 	var resLines []string
 	var fails []PropFail
+	rejected := map[int]bool{}
 	for _, l := range strings.Split(strings.TrimSpace(stdout.String()), "\n") {
 		switch {
-		case strings.HasPrefix(l, `{"ingesterr"`):
-			fails = append(fails, PropFail{Sig: "e2em/ingest-rejected", Msg: "a datapoint of the generated (well-formed) class was rejected: " + trunc(l, 300)})
+		case strings.HasPrefix(l, `{"dp"`), strings.HasPrefix(l, `{"ingesterr"`):
+			var ie struct {
+				Dp  int    `json:"dp"`
+				Err string `json:"ingesterr"`
+			}
+			if json.Unmarshal([]byte(l), &ie) != nil || ie.Dp < 0 || ie.Dp >= len(dpSeries) {
+				fails = append(fails, PropFail{Sig: "e2em/harness/ingesterr-line", Msg: "unreadable rejection line: " + trunc(l, 300)})
+				continue
+			}
+			rejected[ie.Dp] = true
+			if mRejectClass(sers[dpSeries[ie.Dp]]) == "" {
+				fails = append(fails, PropFail{Sig: "e2em/ingest-rejected", Msg: "a datapoint of the generated (well-formed) class was rejected: " + trunc(l, 300)})
+			}
 		case strings.HasPrefix(l, `{"roterr"`):
 			fails = append(fails, PropFail{Sig: "e2em/rotate-error", Msg: "rotation failed: " + trunc(l, 300)})
 		case strings.HasPrefix(l, "{"):
 			resLines = append(resLines, l)
+		}
+	}
+	reported := map[string]bool{}
+	for n, si := range dpSeries {
+		if cl := mRejectClass(sers[si]); cl != "" && !rejected[n] && !reported[cl] && werr == nil {
+			reported[cl] = true
+			fails = append(fails, PropFail{Sig: "e2em/in-class/" + cl, Msg: fmt.Sprintf("datapoint %d (series %d, %s) was accepted although the engine cannot serve it (%s): it must be rejected at ingest", n, si, trunc(sers[si].name+canonLabels(sers[si].labels), 120), cl)})
 		}
 	}
 	if werr != nil || len(resLines) != 2*len(qs) {
